@@ -472,6 +472,14 @@ func c01Run(c *Ctx) {
 			}
 		}
 	}
+	// 9b'. what stands where a single statement is expected is a statement: a declaration there is not accepted
+	for _, in := range []string{K["var"] + " x = 1;", K["var"] + " x;", K["var"] + " x = 1, y;", K["fun"] + " g() { }", "x = 1;", K["print"] + " 1;", "{ " + K["var"] + " x = 1; }", ";"} {
+		for _, slot := range []string{K["if"] + " (c) %s", K["if"] + " (c) %s " + K["else"] + " y = 2;", K["if"] + " (c) y = 2; " + K["else"] + " %s", K["while"] + " (c) %s", K["for"] + " (;;) %s", K["if"] + " (c) " + K["if"] + " (d) %s " + K["else"] + " z = 3;", K["fun"] + " f() { " + K["if"] + " (c) %s }", K["if"] + " (c) y = 1; " + K["else"] + " " + K["if"] + " (d) %s"} {
+			if c.Mine() {
+				tj(&Case{Gen: "statement-slots", Src: fmt.Sprintf(slot, in)})
+			}
+		}
+	}
 	// 9c. property names are plain identifiers: every built-in name (and a few other words) as a key of an
 	// object literal, after a dot on the right and on the left of an assignment (tree comparison)
 	{
